@@ -1077,7 +1077,33 @@ def _b_any_all(which):
 
 import typing as _typing
 
+def _b_ast_walk(it, args, kw):
+    """ast.walk over a tree whose leaves may be unknown sub-trees: every real node, and each
+    unknown sub-tree as ONE node (its interior is unknown: recorded like the bounded
+    materialisation of source trees -- a group that relied on it is never reported proved)"""
+    (root,) = args
+    out, todo = [], [root]
+    c = ctx()
+    while todo:
+        n = todo.pop(0)
+        out.append(n)
+        if isinstance(n, Opaque):
+            c.depth_cut = True
+            continue
+        if not isinstance(n, ast.AST):
+            continue
+        for f in n._fields:
+            v = getattr(n, f, None)
+            for x in (v if isinstance(v, list) else [v]):
+                if isinstance(x, Seg):
+                    raise Unsupported("ast.walk over a run of nodes")
+                if isinstance(x, (ast.AST, Opaque)):
+                    todo.append(x)
+    return out
+
+
 BUILTIN_HANDLERS = {
+    ast.walk: _b_ast_walk,
     isinstance: _b_isinstance,
     len: _b_len,
     enumerate: _b_enumerate,
